@@ -512,6 +512,12 @@ def sessions_for(tier, rng):
         if si % 40 == 7:
             counts[rng.randrange(ns)] = 256
         L.append("sdp new " + " ".join(map(str, counts)))
+        if ns >= 2 and rng.random() < 0.3:
+            # a stream removed on both sides: ids are never reused, the remaining streams are no longer numbered 1..n
+            # (the n-th m= section still belongs to the n-th remaining stream)
+            gone = rng.randrange(1, ns + 1)
+            L.append(f"sdp rm a {gone}")
+            L.append(f"sdp rm b {gone}")
         nm = rng.sample(names, ns)
         for s in range(ns):
             k = rng.random()
@@ -847,6 +853,11 @@ def oracle(session, out, st):
             for i in range(len(agentA["counts"])):
                 agentA["cred"][i + 1] = (f"ufrag{i + 1}".encode(), f"password{i + 1}".encode())
             st.res("new")
+        elif kind == "sdp rm":
+            if agentA is not None and w[2] == "a":
+                agentA["cred"].pop(int(w[3]), None)
+                agentA["locals"] = [(s_, c) for s_, c in agentA["locals"] if s_ != int(w[3])]
+            st.res("rm")
         elif kind == "sdp cred":
             if body == "1" and agentA is not None:
                 agentA["cred"][int(w[2])] = (unhex(w[3])[:256], unhex(w[4])[:256])
